@@ -56,6 +56,11 @@ func propagateMatchers(binOp *parser.BinaryExpr) {
 		return
 	}
 
+	// The maps below hold one matcher per label name.
+	if hasRepeatedNames(lhSelector) || hasRepeatedNames(rhSelector) {
+		return
+	}
+
 	lhMatchers := toMatcherMap(lhSelector)
 	rhMatchers := toMatcherMap(rhSelector)
 	union, hasDuplicates := makeUnion(lhMatchers, rhMatchers)
@@ -77,6 +82,17 @@ func nameMatchers(selector *parser.VectorSelector) []*labels.Matcher {
 		}
 	}
 	return matchers
+}
+
+func hasRepeatedNames(selector *parser.VectorSelector) bool {
+	seen := make(map[string]struct{}, len(selector.LabelMatchers))
+	for _, m := range selector.LabelMatchers {
+		if _, ok := seen[m.Name]; ok {
+			return true
+		}
+		seen[m.Name] = struct{}{}
+	}
+	return false
 }
 
 func toSlice(union map[string]*labels.Matcher) []*labels.Matcher {
@@ -122,10 +138,8 @@ func toMatcherMap(lhSelector *parser.VectorSelector) map[string]*labels.Matcher 
 }
 
 func duplicateExists(matchers map[string]*labels.Matcher, matcher *labels.Matcher) bool {
-	existing, ok := matchers[matcher.Name]
-	if !ok {
-		return false
-	}
-
-	return existing.String() == matcher.String()
+	// A matcher on the same label on the other side, equal or not: the union
+	// keeps one matcher per label and would drop one of the two constraints.
+	_, ok := matchers[matcher.Name]
+	return ok
 }
